@@ -14,7 +14,7 @@ func main() {
 		c.SetRule("seeded pipeline cases (GOMAXPROCS/processors × pool kind × capacity × batch count/bytes/workers/flush × sources × streams × action chains of script(pass/discard/break/collapse/hold)/join/split/discard × output delay plans × failure plans × retries × dead queue × seeded sleeps at hook points) run on the real pipeline in child processes under -race; every Commit is checked against the recorded send acknowledgements and finalize events; distinct = configuration class × observed phenomena (later batch finishing first, discards overtaking in-flight events, time-outs, pool back-pressure); non-trivial = at least one event accepted and the run decided")
 		c.Assume("monitoring plugins sit only at the plugin boundary; the finalize observer (build tag verif) only records")
 		c.Assume("an event whose retries were exhausted without a dead queue counts as finished (reported through the error callback, C09)")
-		pipemon.RunProperty(c, "C01", pipemon.Plan{"mix": {40, 900}, "dlq": {14, 300}, "hold": {8, 150}, "directed": {12, 240}, "stop": {6, 60}}, false, nil)
+		pipemon.RunProperty(c, "C01", pipemon.Plan{"mix": {40, 900}, "dlq": {14, 300}, "hold": {8, 150}, "directed": {18, 240}, "stop": {6, 60}}, false, nil)
 		if c.Counter("completion_inversions") == 0 {
 			c.Fatal("no run had a later batch acknowledged before an earlier one")
 		}
